@@ -500,6 +500,37 @@ def hostile(acc, ctx, spec):
                 acc.violation("aes:roundtrip:fresh-objects", f"a fresh object cannot decrypt a {n}-byte message of "
                                                              f"another fresh object", {"hostile": True})
                 break
+    # ---- (d3) the cipher object is COPIED by the caller (copy.copy, copy.deepcopy, a pickle round trip - what handing
+    # it to a worker process does) after it has been used: original and copies go on encrypting the same (key, message)
+    import copy as _copy
+    import pickle as _pickle
+    for kl in KEY_LENGTHS:
+        base = cls(key_length=kl)
+        key, m = rng.randbytes(kl), rng.randbytes(rng.choice([0, 8, 16, 40]))
+        warm = [base.Encrypt(key, m) for _ in range(3)]
+        clones = {"copy.copy": None, "copy.deepcopy": None, "pickle": None}
+        for how in list(clones):
+            try:
+                clones[how] = {"copy.copy": _copy.copy, "copy.deepcopy": _copy.deepcopy,
+                               "pickle": lambda o: _pickle.loads(_pickle.dumps(o))}[how](base)
+            except Exception:
+                acc.count("hostile.copy_refused." + how)        # an object may refuse to be copied
+                del clones[how]
+        outs = list(warm)
+        for r in range(40):
+            outs.append(base.Encrypt(key, m))
+            for how, c in clones.items():
+                outs.append(c.Encrypt(key, m))
+        acc.count("hostile.copied_objects", len(clones))
+        acc.count("cases")
+        if len(set(outs)) != len(outs):
+            acc.violation("aes:not-randomized:original-and-copies",
+                          f"{len(outs) - len(set(outs))} of {len(outs)} ciphertexts of one (key, message) coincide between a "
+                          f"cipher object and its copies ({', '.join(clones)})", {"key": key, "message": m, "hostile": True})
+            break
+        if any(base.Decrypt(key, x) != m for x in outs[-6:]):
+            acc.violation("aes:roundtrip:copies", "a ciphertext made by a copy of the cipher object does not decrypt", {})
+            break
     # ---- (e) twin interpreters: two fresh processes that agree on the wall-clock second, pid, hash seed, environment
     from vlib import twin
     for f in range(spec.get("twins", 2)):
